@@ -584,4 +584,99 @@ theorem tokDom_wrapToks {toks : List Token} (h : ∀ tok ∈ toks, TokDom tok) :
     · exact h tok (hsub tok (Or.inr ht))
     · exact he
 
+/-! ### `feed`: both passes -/
+
+/-- what a state of the formatter model's plain parser shows of the document (ghost flags erased) -/
+def viewF (s : Fmt.St) : Option Str × Option Fmt.Node := (s.doctype, s.root.map eraseN)
+
+/-- the image of the builder model's document -/
+def viewB (d : Doc) : Option Str × Option Fmt.Node := (d.doctype, d.root.map toFmt)
+
+/-- the image of a `feed` result; the formatter model has one exception here, `MultipleRootNodeException` -/
+def feedViewF : FeedResult → Except Fmt.Err (Option Str × Option Fmt.Node)
+  | .doc d _ => .ok (viewB d)
+  | .raised _ => .error .multipleRoot
+
+theorem view_of_sim {s : Fmt.St} {b : BState} (h : Sim s b.tree b.doctype) : viewF s = viewB b.doc := by
+  unfold viewF viewB BState.doc
+  rw [h.doctype, sim_root h]
+
+/-- what a token list must satisfy for the two `feed`s to be compared -/
+structure FeedDom (toks : List Token) : Prop where
+  each : ∀ tok ∈ toks, TokDom tok
+  lead : LeadDeclOK toks
+
+/-- one pass from the initial states -/
+theorem sim_pass (ts : List Token) (hd : ∀ tok ∈ ts, TokDom tok) :
+    SimRun (run BState.init ts) (Fmt.Plain.run (ts.map tokF) {}) :=
+  sim_run ts (b := BState.init) sim_init hd
+
+theorem feed_agree (toks : List Token) (hd : FeedDom toks) :
+    (Fmt.Plain.feed (toks.map tokF)).map viewF = feedViewF (feedTokens toks) := by
+  have h1 := sim_pass toks hd.each
+  have h2 := sim_pass (wrapToks toks) (tokDom_wrapToks hd.each)
+  rw [wrapToks_eq toks hd.lead] at h2
+  unfold Fmt.Plain.feed feedTokens
+  cases ho : run BState.init toks with
+  | ok b =>
+    cases hr : Fmt.Plain.run (toks.map tokF) {} with
+    | error e => rw [ho, hr] at h1; exact h1.elim
+    | ok s =>
+      rw [ho, hr] at h1
+      simp only [FeedResult.ofPass, feedViewF, Except.map, view_of_sim h1]
+  | multipleRoot =>
+    cases hr : Fmt.Plain.run (toks.map tokF) {} with
+    | ok s => rw [ho, hr] at h1; exact h1.elim
+    | error e =>
+      rw [ho, hr] at h1
+      cases e with
+      | noRoot => exact h1.elim
+      | multipleRoot =>
+        simp only []
+        cases ho2 : run BState.init (wrapToks toks) with
+        | ok b2 =>
+          cases hr2 : Fmt.Plain.run (Fmt.wrapToks (toks.map tokF)) {} with
+          | error e => rw [ho2, hr2] at h2; exact h2.elim
+          | ok s2 =>
+            rw [ho2, hr2] at h2
+            simp only [FeedResult.ofPass, feedViewF, Except.map, view_of_sim h2]
+        | multipleRoot =>
+          cases hr2 : Fmt.Plain.run (Fmt.wrapToks (toks.map tokF)) {} with
+          | ok s2 => rw [ho2, hr2] at h2; exact h2.elim
+          | error e =>
+            rw [ho2, hr2] at h2
+            cases e with
+            | noRoot => exact h2.elim
+            | multipleRoot => rfl
+        | invalidClose => rw [ho2] at h2; cases hr2 : Fmt.Plain.run (Fmt.wrapToks (toks.map tokF)) {} <;> rw [hr2] at h2 <;> exact h2.elim
+        | missedClose => rw [ho2] at h2; cases hr2 : Fmt.Plain.run (Fmt.wrapToks (toks.map tokF)) {} <;> rw [hr2] at h2 <;> exact h2.elim
+        | invalidAttr => rw [ho2] at h2; cases hr2 : Fmt.Plain.run (Fmt.wrapToks (toks.map tokF)) {} <;> rw [hr2] at h2 <;> exact h2.elim
+  | invalidClose => rw [ho] at h1; cases hr : Fmt.Plain.run (toks.map tokF) {} <;> rw [hr] at h1 <;> exact h1.elim
+  | missedClose => rw [ho] at h1; cases hr : Fmt.Plain.run (toks.map tokF) {} <;> rw [hr] at h1 <;> exact h1.elim
+  | invalidAttr => rw [ho] at h1; cases hr : Fmt.Plain.run (toks.map tokF) {} <;> rw [hr] at h1 <;> exact h1.elim
+
+/-- the plain parser's handlers raise nothing but `MultipleRootNodeException` (so `feedViewF` loses nothing) -/
+theorem stepT_outcomes (t : TState) (tok : Token) :
+    (∃ t', stepT t tok = .ok t') ∨ stepT t tok = .multipleRoot := by
+  cases tok <;> simp only [stepT, handleStart, addTextStrict] <;> (repeat' split) <;> simp
+
+theorem run_outcomes : ∀ (ts : List Token) (b : BState), (∃ b', run b ts = .ok b') ∨ run b ts = .multipleRoot
+  | [], b => Or.inl ⟨b, rfl⟩
+  | tok :: ts, b => by
+    rw [run_unfold]
+    rcases stepT_outcomes b.tree tok with ⟨t', h⟩ | h
+    · rw [h]; exact run_outcomes ts _
+    · rw [h]; exact Or.inr rfl
+
+theorem feedTokens_raises (toks : List Token) (e : Exc) (h : feedTokens toks = .raised e) : e = .multipleRoot := by
+  unfold feedTokens at h
+  rcases run_outcomes toks BState.init with ⟨b, h1⟩ | h1
+  · rw [h1] at h; simp [FeedResult.ofPass] at h
+  · rw [h1] at h
+    rcases run_outcomes (wrapToks toks) BState.init with ⟨b, h2⟩ | h2
+    · rw [h2] at h; simp [FeedResult.ofPass] at h
+    · rw [h2] at h
+      simp only [FeedResult.ofPass, Outcome.exc, FeedResult.raised.injEq] at h
+      exact h.symm
+
 end AHP.TM
